@@ -341,6 +341,10 @@ func confExec(tok []string) string {
 		return confCX(tok)
 	case "cval":
 		return confCVal(tok)
+	case "pload":
+		return confPLoad(tok)
+	case "own":
+		return confOwn(tok)
 	case "sval":
 		return confSVal(tok)
 	case "nr":
